@@ -1,5 +1,5 @@
 """C18 helper: strict parsing of a generated document with two independent parsers and the strict classification of a
-not-well-formed result under the known findings F13 / F20 (see known_findings.d/C18.json).
+not-well-formed result under the known finding F13-xml-illegal-char-reference (see known_findings.d/C18.json).
 
 Used by harness/props/c18.py (writer core) and harness/gen/c18_producers.py (end-to-end producers).
 """
@@ -49,21 +49,21 @@ def parse_both(text: str):
     return out
 
 
+F13 = 'F13-xml-illegal-char-reference'
+
+
 def classify_not_wf(res, strings, comment_strings=()):
     """Strict classification of a not-well-formed result.
 
-    F13 only if (a) some input string contains a character XML cannot represent and (b) lxml's error is exactly the
-    complaint about a character reference whose number is such a character.
-    F20 only if (a) some string passed to comment() contains '--' or ends with '-' and (b) lxml's error is the
-    comment-syntax complaint.
-    Anything else: None (an unlisted failure -> VIOLATION)."""
+    F13-xml-illegal-char-reference only if (a) some input string contains a character XML cannot represent and
+    (b) lxml's error is exactly the complaint about a character reference whose number is such a character.
+    Anything else: None (an unlisted failure -> VIOLATION).  In particular a comment-syntax error (the former finding
+    F20, repaired in XmlStream.comment) is unlisted: a recurrence is a violation.  `comment_strings` is accepted for
+    the callers' convenience and not used."""
     err = res.get('lxml_err') or ''
     m = _LXML_CHARREF.search(err)
     if m and not is_xml_char(int(m.group(1))) and any(not representable(s) for s in strings):
-        return 'F13'
-    if ('Double hyphen within comment' in err or 'Comment not terminated' in err) and \
-            any('--' in s or s.endswith('-') for s in comment_strings):
-        return 'F20'
+        return F13
     return None
 
 
